@@ -117,7 +117,9 @@ def run(rep, tier, seed):
             pev = pyeval.ParseEval(pm, ty).run()
             if rdl.always_fails is not None or pev.always_fails is not None:
                 if (rdl.always_fails is None) != (pev.always_fails is None):
-                    rep.add("C07|parse|always-rejects-one-backend", "one backend's parser rejects every input, the other does not", where)
+                    side = "rust-only" if rdl.always_fails is not None else "python-only"
+                    rep.add(f"C07|parse|always-rejects|{side}", f"the {side.split('-')[0]} parser rejects every input, the other "
+                            f"backend's parser does not", where)
                 continue
             a, _ = canon_dec(rdl.items)
             b, _ = canon_dec(pev.items)
